@@ -183,6 +183,8 @@ pub struct Arena {
     /// per-node variable support (sorted var ids), memoised
     support: HashMap<u32, Rc<Vec<u32>>>,
     csupport: HashMap<u32, Rc<Vec<u32>>>,
+    /// exact affine normal forms (filled lazily by smt::Emit)
+    pub aff_cache: std::cell::RefCell<HashMap<u32, Rc<crate::smt::Aff>>>,
 }
 
 pub const C_TRUE: u32 = 0;
